@@ -293,6 +293,32 @@ Fixpoint run (h : hub) (es : list event) : hub * list out :=
     (h2, o1 ++ o2)
   end.
 
+(** The next wake-up of the event loop when no socket event happens
+    ([CommandHub::run]: the poll timeout computed from the deadlines of the
+    pending tasks; a task without deadline contributes nothing). *)
+Fixpoint earliest (ts : list task) : option N :=
+  match ts with
+  | [] => None
+  | t :: r => match t_deadline t, earliest r with
+              | Some d, Some e => Some (N.min d e)
+              | Some d, None => Some d
+              | None, x => x
+              end
+  end.
+
+Fixpoint latest (ts : list task) : option N :=
+  match ts with
+  | [] => None
+  | t :: r => match t_deadline t, latest r with
+              | Some d, Some e => Some (N.max d e)
+              | Some d, None => Some d
+              | None, x => x
+              end
+  end.
+
+Definition next_wake (h : hub) : option N :=
+  if wake_is_earliest then earliest (tasks h) else latest (tasks h).
+
 (** The hot upgrade of the main process ([upgrade_main] -> [generate_upgrade_data]
     -> JSON -> [CommandHub::from_upgrade_data]), minus the fork: what the new
     main process starts from.  [UpgradeData] carries the configuration, the
